@@ -223,3 +223,28 @@ Proof.
     assert (0 < cosR b x - cosR a x) by (unfold S_ in *; lra).
     apply Rmult_lt_0_compat; assumption.
 Qed.
+
+(** * What this means for the code as it is *)
+Definition cos_consts_adequate : Prop :=
+  19 / 2 * u * (1 + 250 * u) <= FR cos95 /\ 3 / 2 * u * (1 + 250 * u) <= FR cos15.
+
+Lemma cos_consts_fin : ffinite cos95 = true /\ ffinite cos15 = true /\ FR cos95 <= 1 /\ FR cos15 <= 1.
+Proof.
+  split; [vm_compute; reflexivity|]. split; [vm_compute; reflexivity|].
+  destruct cos_const_gap as [G1 G2]. pose proof u_small. lra.
+Qed.
+
+(** H_TRIAGE_COS is a THEOREM as soon as the two constants have a relative margin of 250 u = 2.8e-14 *)
+Theorem H_TRIAGE_COS_from_consts : cos_consts_adequate -> H_TRIAGE_COS.
+Proof.
+  intros [A95 A15] x a b Nx Na Nb. rewrite cos_is.
+  destruct cos_consts_fin as (F95 & F15 & L95 & L15).
+  apply cos_triage_sound_param; auto.
+Qed.
+
+(** ... which the source constants do not have (dblError = 1.110223024625156e-16 < 2^-53) *)
+Theorem cos_consts_not_adequate : ~ cos_consts_adequate.
+Proof.
+  intros [_ A15]. destruct cos_const_gap as [_ G]. pose proof u_small as [U0 _].
+  assert (0 <= u * u) by (apply Rmult_le_pos; lra). lra.
+Qed.
